@@ -13,10 +13,10 @@ class Required(Validator):
 
     @classmethod
     def from_element(cls, element):
-        required = getattr(element, "required", None) or []
+        required = list(getattr(element, "required", None) or [])
         properties = getattr(element, "properties", None)
         if properties:
-            required += properties.required
+            required = required + properties.required
         if not required:
             return None
         return Required(required)
